@@ -239,6 +239,22 @@ for _k, _v in ROUND2.items():
     CHECKS[_k]["text"] += _v
 
 
+# theorems added in the seventh round
+ROUND7 = {
+    "C01": " Existence (Theory/Existence, Theory/PolicyValue; no completeness, any ordered field): every policy with valid action indices has exactly one "
+           "discounted value function (policy_value_exists_unique: the evaluation operator of the executable model is affine, its linear part is injective by the "
+           "contraction argument, hence surjective in finite dimension) and the optimal value function exists, is unique, dominates every policy's value and is "
+           "attained by a policy (optimal_value_exists_unique, by one Howard improvement step at a policy maximising the sum of its values). The *_closed theorems "
+           "(vi_span / vi_maxdiff / pi / semiasync_solve) restate the bounds with these fixed points existentially bound instead of assumed, and vi_span_near_optimal_closed "
+           "adds: no stationary deterministic policy is better than the returned one by eps or more at any state.",
+    "C04": " What g is, without limits: gain_is_nstep_average / policy_gain_is_nstep_average (the n-step optimal / policy value from any terminal vector V is "
+           "n*g + h(i) up to min(V-h), max(V-h), for every n), optimal_gain_dominates (no policy's gain exceeds g), optimal_gain_unique, "
+           "rvi_solve_beats_every_policy (the returned policy's gain is within eps of every policy's gain). Existence of (g,h) for unichain MDPs stays textbook.",
+}
+for _k, _v in ROUND7.items():
+    CHECKS[_k]["text"] += _v
+
+
 def main():
     props = [json.loads(l) for l in (V / "properties.jsonl").read_text().splitlines() if l.strip()]
     checks, na = [], []
